@@ -83,6 +83,11 @@ func (runInfo *runInfoStruct) funcExpr() {
 	// variadic functions and functions with many parameters go through
 	// reflect.MakeFunc
 
+	if !runInfo.options.Debug {
+		// captures panic
+		defer recoverFunc(runInfo)
+	}
+
 	// create the inTypes needed by reflect.FuncOf
 	inTypes := make([]reflect.Type, len(funcExpr.Params)+1)
 	// for runVMFunction first arg is always context
